@@ -1521,7 +1521,7 @@ fn pretty_print_binop(op: &BinaryOperator, lhs: &Expression, rhs: &Expression) -
     match op {
         BinaryOperator::ConvertTo => {
             // It has the lowest precedence of all binary operators, only conditionals (and a
-            // conversion on the right hand side) need parens:
+            // conversion on the right hand side, also in its sugar form `x -> °C`) need parens:
             let lhs_add_parens_if_needed = |expr: &Expression| {
                 if matches!(expr, Expression::Condition { .. }) {
                     with_parens(expr)
@@ -1537,7 +1537,8 @@ fn pretty_print_binop(op: &BinaryOperator, lhs: &Expression, rhs: &Expression) -
                             op: BinaryOperator::ConvertTo,
                             ..
                         }
-                ) {
+                ) || is_printed_in_sugar_form(expr)
+                {
                     with_parens(expr)
                 } else {
                     expr.pretty_print()
